@@ -42,6 +42,12 @@ MUTS = [
  ('M15 _align_chunk_info pads to the longest L0 array only (flags ignored)', DS,
   "max_dumps = max(info['shape'][0] for info in chunk_info.values())",
   "max_dumps = max(info['shape'][0] for key, info in chunk_info.items() if key != 'flags')"),
+ ('M16 Van Vleck lookup table loses its (0, 0) anchor (seeded C06-8)', 'PATCH', '/verif/seeded/C06-8/patch.diff', ''),
+ ('M17 Van Vleck interpolation marks out-of-table powers as NaN (np.interp left=nan)', VFW,
+  "quantised_autocorr_table, true_autocorr_table)\n        return out", "quantised_autocorr_table, true_autocorr_table, left=np.nan)\n        return out"),
+ ('M18 weight_power_scale: a zero / non-finite power gives weight 1 times the stored weight instead of bad_weight', VFW,
+  "                if not np.isfinite(p):\n                    p = bad_weight", "                if not np.isfinite(p):\n                    p = np.float32(1.0)"),
+ ('M19 seeded C06-7: _apply_data_lost ORs into the chunk it was handed', 'PATCH', '/verif/seeded/C06-7/patch.diff', ''),
 ]
 only = sys.argv[1:]
 res = []
